@@ -125,6 +125,9 @@ class Engine(object):
         self.notes = []
         self.uf = {}
         self.touched = set()
+        self.active_case = None
+        import os as _os
+        self.debug = bool(_os.environ.get("PYVC_DEBUG"))
         self.loop_counter = {}
         self.ghost_track = set(k for k, v in self.types.items() if v.get("$ghost_lastpos"))
         self.used_assumptions = set()
@@ -148,7 +151,7 @@ class Engine(object):
         if kind == "bool":
             return Bool(self.fresh(name, BoolS))
         if kind.startswith("ref:"):
-            return Ref(self.fresh(name, RefS), kind[4:])
+            return Ref(self.fresh(name, RefS), kind[4:].split("@")[0])
         if kind.startswith("slist:"):
             return SList(self.fresh(name, RefS), kind[6:])
         if kind.startswith("str:"):
@@ -184,7 +187,7 @@ class Engine(object):
         if kind == "bool":
             return Bool(term)
         if kind.startswith("ref:"):
-            return Ref(term, kind[4:])
+            return Ref(term, kind[4:].split("@")[0])
         if kind.startswith("slist:"):
             return SList(term, kind[6:])
         if kind in ("dt", "td"):
@@ -209,8 +212,13 @@ class Engine(object):
         elif kind.startswith("ref:") or kind.startswith("slist:"):
             if isinstance(v, NoneT):
                 return NULL
+            if isinstance(v, SList) and kind.startswith("slist:") and v.ekind != kind[6:]:
+                # lists are partitioned by declared role (e.g. Block.vars vs Solver.vs): a list never changes role
+                raise Unsupported("list of role %s stored where role %s is declared" % (v.ekind, kind[6:]))
             if isinstance(v, (Ref, SList)):
                 return v.t
+            if isinstance(v, Handle) and v.kind == "list" and kind.startswith("slist:") and P is not None and len(P.get(v)) == 0:
+                return self.new_slist(P, kind[6:], "empty").t
         elif kind in ("dt", "td"):
             if isinstance(v, Opaque) and v.tag == kind:
                 return v.payload[0]
@@ -268,6 +276,23 @@ class Engine(object):
         for (p, v) in self.ev(node, P, sctx):
             self.oblige(P, name, self.truth(v, P), kind)
 
+    def ghost_index(self, P, lst, key, name):
+        """Ghost inverse index of an INJECTIVE list: after proving that the elements of lst are pairwise distinct,
+        introduce a ghost field `key` (class.$name) with key[lst[k]] == k.  Such an assignment exists exactly because
+        the list is injective; no program value depends on it."""
+        n = self.l_len(P, lst)
+        el = self.l_elems(P, lst)
+        a = self.fresh("gi_a", IntS)
+        b = self.fresh("gi_b", IntS)
+        Q = P.clone()
+        Q.assume(z3.And(0 <= a, a < b, b < n))
+        self.oblige(Q, "ghost.%s.distinct" % name, z3.Select(el, a) != z3.Select(el, b), "ghost")
+        arr = self.fresh("H_" + key, z3.ArraySort(RefS, IntS))
+        k = z3.Const("k!gi", IntS)
+        P.assume(z3.ForAll([k], z3.Implies(z3.And(0 <= k, k < n), z3.Select(arr, z3.Select(el, k)) == k),
+                           patterns=[z3.Select(el, k)]))
+        P.heap[key] = arr
+
     def fail(self, P, name, detail=""):
         """A path that must not be feasible (Python would raise here)."""
         self.oblige(P, name, z3.BoolVal(False), "safe", {"detail": detail})
@@ -324,7 +349,7 @@ class Engine(object):
             if isinstance(v, NoneT):
                 return
         arr = self.heap_array(P, key, self.sort_of_kind(kind))
-        P.heap[key] = z3.Store(arr, ref, self.unwrap(v, kind))
+        P.heap[key] = z3.Store(arr, ref, self.unwrap(v, kind, P))
         P.written.add(key)
 
     _type_ids = {}
@@ -374,7 +399,7 @@ class Engine(object):
                 el = self.heap_array(P, "list.elems.%s" % self.ekey(ek), z3.ArraySort(IntS, RefS))
                 ln = self.heap_array(P, self.lenkey(ek), IntS)
                 tgt = z3.Select(z3.Select(el, o), i)
-                tcls = ek.split(":", 1)[1] if ek.startswith("ref:") else "list"
+                tcls = ek.split(":", 1)[1].split("@")[0] if ek.startswith("ref:") else "list"
                 P.assume(z3.ForAll([o, i], z3.Implies(z3.And(z3.Select(a, o), 0 <= i, i < z3.Select(ln, o)),
                                                       z3.Or(tgt == NULL, z3.And(z3.Select(a, tgt), self.type_is(P, tgt, tcls)))),
                                    patterns=[tgt]))
@@ -744,6 +769,22 @@ class Engine(object):
         # ---- python lists
         if isinstance(op, ast.Add) and isinstance(a, Handle) and isinstance(b, Handle) and a.kind == b.kind == "list":
             return [(P, P.new("list", P.get(a) + P.get(b)))]
+        if isinstance(op, ast.Add) and isinstance(a, Handle) and a.kind == "list" and isinstance(b, SList):
+            xs = P.get(a)
+            R = self.new_slist(P, b.ekind, "concat")
+            nb = self.l_len(P, b)
+            self.l_set_len(P, R, nb + len(xs))
+            arr = self.fresh("concat_el", z3.ArraySort(IntS, self.esort(b.ekind)))
+            for k, x in enumerate(xs):
+                P.assume(z3.Select(arr, z3.IntVal(k)) == self.unwrap(x, b.ekind))
+            jv = z3.Const("j!cc", IntS)
+            src = self.l_elems(P, b)
+            P.assume(z3.ForAll([jv], z3.Implies(z3.And(0 <= jv, jv < nb), z3.Select(arr, jv + len(xs)) == z3.Select(src, jv)),
+                               patterns=[z3.Select(arr, jv + len(xs))]))
+            P.assume(z3.ForAll([jv], z3.Implies(z3.And(len(xs) <= jv, jv < nb + len(xs)), z3.Select(arr, jv) == z3.Select(src, jv - len(xs))),
+                               patterns=[z3.Select(arr, jv)]))
+            self.l_set_elems(P, R, arr)
+            return [(P, R)]
         if isinstance(op, ast.Mult) and isinstance(a, Handle) and a.kind == "list" and isinstance(b, Num):
             n = z3.simplify(b.t)
             if z3.is_int_value(n):
@@ -1075,8 +1116,8 @@ class Engine(object):
             idx = k.t
             if n is not None and n < 0:
                 idx = ln + n
-            elif n is None:
-                idx = z3.If(k.t < 0, ln + k.t, k.t)
+            # a SYMBOLIC index is used as it is (no If(k < 0, len + k, k) wrapper, which would defeat quantifier triggers);
+            # in code the obligation below demands 0 <= k < len, i.e. symbolic negative indexing is not accepted
             if not ctx.spec:
                 self.oblige(P, "safe.index#%d" % self.site(), z3.And(idx >= 0, idx < ln), "safe")
             return [(P, self.l_get(P, o, idx))]
@@ -1134,7 +1175,96 @@ class Engine(object):
         return z3.If(t < 0, z3.IntVal(0), z3.If(t > ln, ln, t))
 
     def ev_ListComp(self, e, P, ctx):
-        return [(p, p.new("list", tuple(vs))) for (p, vs) in self.comprehension(e.elt, e.generators, P, ctx)]
+        return [(p, vs if isinstance(vs, SList) else p.new("list", tuple(vs)))
+                for (p, vs) in self.comprehension(e.elt, e.generators, P, ctx)]
+
+    def slist_comprehension(self, elt, g, P, ctx, L):
+        """[f(x) for x in L] with a map-safe contract on f, or [x for x in L if cond(x)], over a symbolic-length list.
+        -> (path, SList)"""
+        if not isinstance(g.target, ast.Name):
+            raise Unsupported("comprehension target")
+        var = g.target.id
+        n = self.l_len(P, L)
+        j = self.fresh("j_cmp", IntS)
+        # ---- filter: [x for x in L if cond]
+        if isinstance(elt, ast.Name) and elt.id == var and len(g.ifs) == 1:
+            R = self.new_slist(P, L.ekind, "filtered")
+            m = self.fresh("len_filtered", IntS)
+            self.l_set_len(P, R, m)
+            P.assume(z3.And(m >= 0, m <= n))
+            relems = self.fresh("filtered_el", z3.ArraySort(IntS, self.esort(L.ekind)))
+            self.l_set_elems(P, R, relems)
+            sig = z3.Function("sigma!%d" % fresh_id(), IntS, IntS)
+            tau = z3.Function("tau!%d" % fresh_id(), IntS, IntS)
+
+            def cond_at(term):
+                fr = self.new_frame(P, {var: self.wrap(term, L.ekind)})
+                res = self.ev(g.ifs[0], P, ctx.child(fr).asspec())
+                if len(res) != 1:
+                    raise Unsupported("filter condition forks")
+                return self.truth(res[0][1], P)
+
+            k = z3.Const("k!flt", IntS)
+            i = z3.Const("i!flt", IntS)
+            lel = self.l_elems(P, L)
+            rk = z3.Select(relems, k)
+            P.assume(z3.ForAll([k], z3.Implies(z3.And(0 <= k, k < m),
+                                               z3.And(0 <= sig(k), sig(k) < n, rk == z3.Select(lel, sig(k)), cond_at(rk))),
+                               patterns=[rk]))
+            P.assume(z3.ForAll([k, i], z3.Implies(z3.And(0 <= k, k < i, i < m), sig(k) < sig(i)), patterns=[z3.MultiPattern(sig(k), sig(i))]))
+            li = z3.Select(lel, i)
+            P.assume(z3.ForAll([i], z3.Implies(z3.And(0 <= i, i < n, cond_at(li)),
+                                               z3.And(0 <= tau(i), tau(i) < m, z3.Select(relems, tau(i)) == li, sig(tau(i)) == i)),
+                               patterns=[li]))
+            self.assume_used("A-LIB:filter-comprehension (order-preserving sub-list, complete)")
+            return (P, R)
+        # ---- map: [f(x) for x in L]
+        if (isinstance(elt, ast.Call) and len(elt.args) == 1 and isinstance(elt.args[0], ast.Name) and elt.args[0].id == var
+                and not elt.keywords and not g.ifs):
+            fv = self.ev(elt.func, P, ctx)
+            if len(fv) != 1 or not isinstance(fv[0][1], Func):
+                raise Unsupported("map comprehension callee")
+            f = fv[0][1]
+            con = self.contracts.get(f.qual)
+            if con is None or not con.get("map_safe"):
+                raise Unsupported("comprehension over a symbolic-length list needs a map-safe contract on %s" % (f.qual or f.name))
+            pname = [a.arg for a in f.node.args.args][0]
+            rk_ = con["returns"]
+            # preconditions for every element
+            sk = self.fresh("sk_cmp", IntS)
+            Q = P.clone()
+            Q.assume(z3.And(0 <= sk, sk < n))
+            fr = self.new_frame(Q, {pname: self.l_get(Q, L, sk)})
+            site = self.site()
+            for (nm, src) in self.named(con.get("requires", [])):
+                self.prove_spec(Q, "call.%s.pre.%s#%d" % (f.qual, nm, site), src, Ctx(f.mod, (fr,), True, f.qual), "pre")
+            pre = P.clone()
+            for key in con.get("modifies", []):
+                self.havoc_heap(P, key)
+            self.wf_after_havoc(P, pre, tuple(con.get("allocates", ())) + ("list",))
+            R = SList(self.fresh("mapped", RefS), rk_)
+            P.assume(R.t != NULL)
+            P.assume(z3.Select(self.alloc_arr(P), R.t))
+            P.assume(z3.Not(z3.Select(self.alloc_arr(pre), R.t)))
+            P.assume(self.type_is(P, R.t, "list"))
+            P.assume(self.l_len(P, R) == n)
+            saved_old = P.old
+            P.old = pre
+            jv = z3.Const("j!map", IntS)
+            fr2 = self.new_frame(P, {pname: self.l_get(pre, L, jv), "result": self.l_get(P, R, jv)})
+            body = []
+            for (nm, src) in self.named(con.get("ensures", [])):
+                res = self.ev(self.parse(src), P, Ctx(f.mod, (fr2,), True, f.qual))
+                body.append(self.truth(res[0][1], P))
+            P.old = saved_old
+            rj = z3.Select(self.l_elems(P, R), jv)
+            P.assume(z3.ForAll([jv], z3.Implies(z3.And(0 <= jv, jv < n), z3.And(*body)), patterns=[rj]))
+            kv = z3.Const("k!map", IntS)
+            rkk = z3.Select(self.l_elems(P, R), kv)
+            P.assume(z3.ForAll([jv, kv], z3.Implies(z3.And(0 <= jv, jv < kv, kv < n), rj != rkk), patterns=[z3.MultiPattern(rj, rkk)]))
+            self.assume_used("contract:" + f.qual)
+            return (P, R)
+        raise Unsupported("this comprehension over a symbolic-length list")
 
     def ev_GeneratorExp(self, e, P, ctx):
         return self.ev_ListComp(e, P, ctx)
@@ -1156,6 +1286,9 @@ class Engine(object):
         out = []
         for (p, it) in self.ev(g.iter, P, ctx):
             items = self.iter_items(p, it)
+            if items is None and isinstance(it, SList):
+                out.append(self.slist_comprehension(elt, g, p, ctx, it))
+                continue
             if items is None:
                 raise Unsupported("comprehension over symbolic-length iterable")
             fr = self.new_frame(p)
@@ -1340,6 +1473,9 @@ class Engine(object):
     def call_func(self, P, ctx, f, args, kwargs):
         qual = f.qual
         con = self.contracts.get(qual) if qual else None
+        hook = (self.contracts.get(ctx.fname) or {}).get("ghost", {}).get("before_call:%s" % qual) if not ctx.spec else None
+        if hook is not None:
+            hook(self, P, ctx, args)
         if ctx.spec:
             con = None  # contract text calls real (pure) functions by inlining them; side-effect free by construction
         if con is not None and not con.get("inline", False) and qual not in self.func_stack[-1:]:
@@ -1363,6 +1499,7 @@ class Engine(object):
                 return res
             if any(isinstance(n, (ast.Yield, ast.YieldFrom)) for n in ast.walk(f.node)):
                 raise Unsupported("generator function %s" % f.name)
+            self.index_loops(f.node)
             outs = self.exec_block(f.node.body, P, c2, self.nonlocals_of(f.node))
             res = []
             for (p, o) in outs:
@@ -1515,7 +1652,7 @@ class Engine(object):
                     self.heap_array(P, key, z3.ArraySort(IntS, self.esort(ek)))
                 elif key.endswith("$set"):
                     self.heap_array(P, key, BoolS)
-                elif key.endswith("$lastpos"):
+                elif key.endswith("$lastpos") or key.endswith("$vidx"):
                     self.heap_array(P, key, IntS)
                 elif key.endswith("$lastlist"):
                     self.heap_array(P, key, RefS)
@@ -1557,6 +1694,9 @@ class Engine(object):
                     nxt.append((p, o))
                     continue
                 nxt.extend(self.exec_stmt(st, p, ctx, nonlocals))
+            if self.debug and states and not nxt:
+                import sys
+                sys.stderr.write("[pyvc-debug] all paths ended at %s line %s: %s\n" % (ctx.fname, getattr(st, "lineno", "?"), ast.unparse(st)[:120]))
             states = nxt
             if not states:
                 break
@@ -1620,6 +1760,7 @@ class Engine(object):
             self.assign_name(P, ctx, st.targets[0].id, lst, nl)
             return [(P, ("next",))]
         out = []
+        k = self._assign_ord.get(id(st))
         for (p, v) in self.ev(st.value, P, ctx):
             ps = [p]
             for t in st.targets:
@@ -1627,6 +1768,11 @@ class Engine(object):
                 for q in ps:
                     nps.extend(self.bind_target(q, ctx, t, v, nl))
                 ps = nps
+            if k is not None and not ctx.spec:
+                # ghost: the value given by the k-th assignment statement (source order) to this local stays nameable in
+                # contract text as <name>__<k> (no program value depends on it)
+                for q in ps:
+                    self.assign_name(q, ctx, "%s__%d" % (st.targets[0].id, k), v, ())
             out.extend((q, ("next",)) for q in ps)
         return out
 
@@ -1727,7 +1873,7 @@ class Engine(object):
             self.need_num(k)
             ln = self.l_len(P, o)
             n = self.cint(k)
-            idx = ln + n if (n is not None and n < 0) else (k.t if n is not None else z3.If(k.t < 0, ln + k.t, k.t))
+            idx = ln + n if (n is not None and n < 0) else k.t
             self.oblige(P, "safe.index#%d" % self.site(), z3.And(idx >= 0, idx < ln), "safe")
             self.l_set_elems(P, o, z3.Store(self.l_elems(P, o), idx, self.unwrap(v, o.ekind)))
             return [P]
@@ -1741,18 +1887,64 @@ class Engine(object):
         return out
 
     # ------------------------------------------------------------------ loops
-    def loop_spec(self, ctx):
+    _loop_ord = {}
+    _assign_ord = {}
+
+    def loop_ordinal(self, st):
+        """static ordinal of a loop statement: its pre-order position among the loops of the enclosing function
+        (nested defs excluded) - independent of the path taken and of line numbers"""
+        k = self._loop_ord.get(id(st))
+        if k is not None:
+            return k
+        raise Unsupported("loop outside an indexed function body")
+
+    def index_loops(self, fnode):
+        if id(fnode) in self._loop_ord:
+            return
+        self._loop_ord[id(fnode)] = -1
+        self._keep = getattr(self, "_keep", [])
+        self._keep.append(fnode)
+        count = [0]
+
+        acount = {}
+
+        def walk(stmts):
+            for st in stmts:
+                if isinstance(st, (ast.FunctionDef, ast.ClassDef, ast.Lambda)):
+                    continue
+                if isinstance(st, ast.Assign) and len(st.targets) == 1 and isinstance(st.targets[0], ast.Name):
+                    nm = st.targets[0].id
+                    self._assign_ord[id(st)] = acount.get(nm, 0)
+                    acount[nm] = acount.get(nm, 0) + 1
+                if isinstance(st, (ast.For, ast.While)):
+                    self._loop_ord[id(st)] = count[0]
+                    count[0] += 1
+                for fld in ("body", "orelse", "finalbody"):
+                    sub = getattr(st, fld, None)
+                    if isinstance(sub, list):
+                        walk(sub)
+                if isinstance(st, ast.Try):
+                    for h in st.handlers:
+                        walk(h.body)
+
+        if not isinstance(fnode, ast.Lambda):
+            walk(fnode.body)
+
+    def loop_spec(self, ctx, st):
         fn = ctx.fname
-        k = self.loop_counter.get(fn, 0)
-        self.loop_counter[fn] = k + 1
+        k = self.loop_ordinal(st)
         con = self.contracts.get(fn)
         spec = None
         if con is not None:
             spec = con.get("loops", {}).get(k)
+            extra = (self.active_case or {}).get("loops", {}).get(k) if fn == self.current else None
+            if extra:
+                spec = dict(spec or {})
+                spec["inv"] = list(extra.get("inv", [])) + list(spec.get("inv", []))
         return k, spec
 
     def st_While(self, st, P, ctx, nl):
-        k, spec = self.loop_spec(ctx)
+        k, spec = self.loop_spec(ctx, st)
         if st.orelse:
             raise Unsupported("while-else")
         if spec is None:
@@ -1781,7 +1973,7 @@ class Engine(object):
         return done
 
     def st_For(self, st, P, ctx, nl):
-        k, spec = self.loop_spec(ctx)
+        k, spec = self.loop_spec(ctx, st)
         if st.orelse:
             raise Unsupported("for-else")
         out = []
@@ -1839,6 +2031,9 @@ class Engine(object):
                 raise Unsupported("cut loop over %r" % (iterable,))
             step = self.range_step
             self.assign_name(P, ctx, idxname, lo, ())
+        if self.debug and not self.feasible(P):
+            import sys
+            sys.stderr.write("[pyvc-debug] loop %d of %s: path already infeasible when the loop is reached\n" % (k, fn))
         # --- init
         for (nm, src) in invs:
             self.prove_spec(P, "loop%d.inv.init.%s" % (k, nm), src, sctx, "inv")
@@ -1872,9 +2067,15 @@ class Engine(object):
                 H.assume(z3.And(iv.t >= lo.t, z3.Or(iv.t <= hi.t, iv.t == lo.t)))
             else:
                 H.assume(z3.And(iv.t <= lo.t, z3.Or(iv.t >= hi.t, iv.t == lo.t)))
+        if self.debug and not self.feasible(H):
+            import sys
+            sys.stderr.write("[pyvc-debug] loop %d of %s: infeasible right after havoc\n" % (k, fn))
         for (nm, src) in invs:
             for (p, v) in self.ev(self.parse(src), H, sctx):
                 H.assume(self.truth(v, H))
+            if self.debug and not self.feasible(H):
+                import sys
+                sys.stderr.write("[pyvc-debug] loop %d of %s: infeasible after assuming invariant %s\n" % (k, fn, nm))
         written_before = set(H.written)
         H.written = set()
         # --- exit path and body path
